@@ -604,8 +604,17 @@ def evaluate_payload_template(input, context, template):
 
 
         # Extract intrinsic name and normalise it to asl_intrinsic_<name>
+        if "(" not in intrinsic:
+            raise IntrinsicFailure(
+                "{} is not an Intrinsic Function call.".format(intrinsic)
+            )
         func, args = intrinsic.split("(", 1)
         func = func.strip()
+        if not func.startswith("States."):
+            # Only States.<name> is dispatched, never another local name.
+            raise IntrinsicFailure(
+                "Intrinsic Function {} is not supported.".format(func)
+            )
         normalised_func = func.replace("States.", "asl_intrinsic_")
         # Extract raw args string
         args = args.rsplit(")", 1)[0]
